@@ -2,6 +2,7 @@ import Qhttp.Model.FsHandler
 import Qhttp.Model.Http
 import Qhttp.Props.C01
 import Qhttp.Lemmas.FsWalk
+import Qhttp.Lemmas.C07Run
 /-
   C07 — files are served only from inside the document root.
 -/
@@ -229,6 +230,226 @@ theorem cleanPath_no_dot (p : Bytes) (hp : p ≠ []) :
       rw [segs_joinSegs (by intro e; rw [e] at he; exact he rfl) (fun s hs => (hel s hs).2)]
       exact hnf
 
+/-! ### `holds` on the composed run -/
+
+/-- the links of all non-hidden entries of the directory at `loc` occur in `body` (the directory
+    clause of `holds`) -/
+def listsAll (fe : FsEnv) (loc : List Bytes) (body : Bytes) : Bool :=
+  fe.tree.all fun e =>
+    if e.1.dropLast == loc then
+      (match e.1.getLast? with
+       | some n => hidden n || isInfixB (HREF ++ htmlEscape n ++ (if e.2 == .dir then [47, 34] else [34])) body
+       | none => true)
+    else true
+
+theorem mem_joinSegs {c : UInt8} : ∀ {l : List Bytes}, c ∈ Fs.joinSegs l → c = 47 ∨ ∃ s ∈ l, c ∈ s := by
+  intro l
+  induction l with
+  | nil => intro h; simp [Fs.joinSegs_nil] at h
+  | cons x l ih =>
+    intro h
+    cases l with
+    | nil => rw [Fs.joinSegs_single] at h; exact .inr ⟨x, by simp, h⟩
+    | cons y l =>
+      rw [Fs.joinSegs_cons x (by simp)] at h
+      rcases List.mem_append.1 h with h | h
+      · exact .inr ⟨x, by simp, h⟩
+      · rcases List.mem_cons.1 h with h | h
+        · exact .inl h
+        · rcases ih h with h | ⟨s, hs, hc⟩
+          · exact .inl h
+          · exact .inr ⟨s, by simp [hs], hc⟩
+
+theorem plain_no_pct {p : Bytes} (h : plain p = true) : (37 : UInt8) ∉ p := by
+  intro hm
+  rw [← Fs.joinSegs_segs p] at hm
+  rcases mem_joinSegs hm with h47 | ⟨s, hs, hc⟩
+  · exact absurd h47 (by decide)
+  · unfold plain at h
+    simp only [Bool.and_eq_true, List.all_eq_true] at h
+    have := (h.2 s hs).1.2
+    have hc' : containsByte 37 s = true := containsByte_iff.2 hc
+    rw [hc'] at this
+    cases this
+
+theorem plan_served {fe : FsEnv} {path : Bytes} {hs : HeaderMap} :
+    (plan fe path hs = .notFound → True) ∧
+    (∀ loc d, plan fe path hs = .dir loc d →
+      Fs.served fe.tree fe.root (Fs.pctDecode path) = some loc ∧ d = Fs.pctDecode path) ∧
+    (∀ loc r, plan fe path hs = .file loc r → Fs.served fe.tree fe.root (Fs.pctDecode path) = some loc) := by
+  unfold plan
+  simp only []
+  refine ⟨fun _ => trivial, ?_, ?_⟩
+  · intro loc d h
+    split at h
+    · cases h
+    · rename_i l hl
+      split at h
+      · cases h; exact ⟨hl, rfl⟩
+      · cases h
+  · intro loc r h
+    split at h
+    · cases h
+    · rename_i l hl
+      split at h
+      · cases h
+      · cases h; exact hl
+
+theorem plan_of_served {fe : FsEnv} {path : Bytes} {hs : HeaderMap} {loc : List Bytes}
+    (h : Fs.served fe.tree fe.root (Fs.pctDecode path) = some loc) :
+    (Fs.kindAt fe.tree loc = some .dir → plan fe path hs = .dir loc (Fs.pctDecode path)) ∧
+    (Fs.kindAt fe.tree loc = some .file → ∃ r, plan fe path hs = .file loc r) := by
+  unfold plan
+  simp only [h]
+  constructor
+  · intro hk; rw [hk]
+  · intro hk; rw [hk]; exact ⟨_, rfl⟩
+
+/-- every existing location inside the root: files fit one copy block, MIME type names are
+    CR-free -/
+def okFiles (fe : FsEnv) : Bool :=
+  (([], Fs.Kind.dir) :: fe.tree).all fun e =>
+    !inside (Fs.locOf fe.root) e.1 ||
+      (decide ((fe.content e.1).length ≤ 65536) && !containsByte CR (fe.mime e.1))
+
+/-- canary hypothesis: the content / the listing (for the decoded path `d`) of an existing location
+    inside the root does not by itself coincide with an outside canary -/
+def noCanary (fe : FsEnv) (d : Bytes) : Bool :=
+  (([], Fs.Kind.dir) :: fe.tree).all fun e =>
+    !inside (Fs.locOf fe.root) e.1 ||
+      (!disclosesOutside fe (Fs.locOf fe.root) (fe.content e.1) &&
+       !disclosesOutside fe (Fs.locOf fe.root) (fe.listing e.1 d))
+
+/-- the listing oracle links every non-hidden entry of every directory -/
+def listingOk (fe : FsEnv) (d : Bytes) : Bool :=
+  (([], Fs.Kind.dir) :: fe.tree).all fun e => e.2 != .dir || listsAll fe e.1 (fe.listing e.1 d)
+
+/-- **C07 on the composed run** (socket + `FilesystemHandler::process` + copier), for EVERY
+    request path.  Scenario shape: the socket is created, the whole request arrives in one
+    segment (a head `C01.expect` accepts, no Content-Length, no Range header), an event-loop turn,
+    then any acknowledgements and turns.  Parameters and what is assumed of them (all decidable):
+    * the document root is absolute without `..` segment; the tree is prefix-closed;
+    * `okFiles`: files inside the root fit one copy block and have CR-free MIME type names;
+    * `noCanary`: the content of a file inside the root / the listing of a directory inside the
+      root does not by itself coincide with an outside canary;
+    * `listingOk`: the listing oracle links every non-hidden entry.
+    Then the executable predicate the driver evaluates holds: a success response discloses nothing
+    outside the root, and a plain relative path to an existing file or directory inside the root
+    is answered 200 with that file / listing. -/
+theorem holds_run (env : Env) (fe : FsEnv) (req head : Bytes) (snap : Snap) (tail : List Event)
+    (complete : Bool)
+    (hreq : breakOn CRLF2 req = some (head, []))
+    (hexp : C01.expect env head = some snap)
+    (hcl : HeaderMap.contains Sock.CONTENT_LENGTH snap.headers = false)
+    (hnr : HeaderMap.value RANGE snap.headers = [])
+    (hroot : Fs.CleanAbs fe.root = true) (htree : Fs.treeClosed fe.tree = true)
+    (hfile : okFiles fe = true)
+    (hcan : noCanary fe (Fs.pctDecode (snap.path.drop 1)) = true)
+    (hlist : listingOk fe (Fs.pctDecode (snap.path.drop 1)) = true)
+    (htail : tail.all C03L.allowedEv = true) :
+    holds fe (snap.path.drop 1) complete
+      (FsHandler.run env fe (.new :: .feed req :: .turn :: tail)).sock.log = true := by
+  obtain ⟨rh, p, q, hparse, hurl, rfl⟩ := (C01.expect_eq_some_iff env head snap).1 hexp
+  simp only at hcl hnr hcan hlist ⊢
+  unfold holds
+  cases hrl : rootLoc fe with
+  | none => rfl
+  | some rootL =>
+    have hR : rootL = Fs.locOf fe.root := rootLoc_eq fe hroot hrl
+    subst hR
+    simp only []
+    obtain ⟨hpn, hpd, hpf⟩ := plan_served (fe := fe) (path := p.drop 1) (hs := rh.headers)
+    -- whatever is served is an existing location inside the root
+    have hins : ∀ loc, Fs.served fe.tree fe.root (Fs.pctDecode (p.drop 1)) = some loc →
+        inside (Fs.locOf fe.root) loc = true ∧ ∃ e ∈ ([], Fs.Kind.dir) :: fe.tree, e.1 = loc := by
+      intro loc h
+      refine ⟨contained_inside _ _ _ hroot h, ?_⟩
+      cases hk : Fs.kindAt fe.tree loc with
+      | none => exact absurd hk (Fs.served_exists _ _ _ h)
+      | some k =>
+        obtain ⟨e, he, h1, _⟩ := Fs.kindAt_mem hk
+        exact ⟨e, he, h1⟩
+    have hfile' : ∀ loc, Fs.served fe.tree fe.root (Fs.pctDecode (p.drop 1)) = some loc →
+        (fe.content loc).length ≤ 65536 ∧ CR ∉ fe.mime loc := by
+      intro loc h
+      obtain ⟨hi, e, he, rfl⟩ := hins loc h
+      have := List.all_eq_true.1 hfile e he
+      simp only [hi, Bool.not_true, Bool.false_or, Bool.and_eq_true, decide_eq_true_eq,
+        Bool.not_eq_true'] at this
+      exact ⟨this.1, containsByte_eq_false_iff.1 this.2⟩
+    have hcan' : ∀ loc, Fs.served fe.tree fe.root (Fs.pctDecode (p.drop 1)) = some loc →
+        disclosesOutside fe (Fs.locOf fe.root) (fe.content loc) = false ∧
+        disclosesOutside fe (Fs.locOf fe.root) (fe.listing loc (Fs.pctDecode (p.drop 1))) = false := by
+      intro loc h
+      obtain ⟨hi, e, he, rfl⟩ := hins loc h
+      have := List.all_eq_true.1 hcan e he
+      simp only [hi, Bool.not_true, Bool.false_or, Bool.and_eq_true, Bool.not_eq_true'] at this
+      exact this
+    obtain ⟨m, hm, hres⟩ := C07L.run_response env fe req head rh p q tail hreq hparse hurl hcl hnr
+      (fun loc r hpl => hfile' loc (hpf loc r hpl)) htail
+    have hst : statusOf (Obs.wire (FsHandler.run env fe (.new :: .feed req :: .turn :: tail)).sock.log) =
+        (Http.statusLine m.start).map (·.code) := by
+      unfold statusOf; rw [hm]
+    have hbd : bodyOf (Obs.wire (FsHandler.run env fe (.new :: .feed req :: .turn :: tail)).sock.log) =
+        m.body := by
+      unfold bodyOf; rw [hm]
+    rw [hst, hbd]
+    rw [Bool.and_eq_true]
+    constructor
+    · -- a success response discloses nothing outside the root
+      cases hplan : plan fe (p.drop 1) rh.headers with
+      | notFound =>
+        rw [hplan] at hres
+        simp only [] at hres
+        rw [hres, if_neg (by decide)]
+      | dir loc d =>
+        rw [hplan] at hres
+        simp only [] at hres
+        obtain ⟨hsv, rfl⟩ := hpd loc d hplan
+        have := (hcan' loc hsv).2
+        rw [hres.1, hres.2, this]
+        decide
+      | file loc r =>
+        rw [hplan] at hres
+        simp only [] at hres
+        have := (hcan' loc (hpf loc r hplan)).1
+        rw [hres.1, hres.2, this]
+        decide
+    · -- a plain relative path to something that exists is answered with it
+      by_cases hcp : (complete && plain (p.drop 1)) = true
+      · rw [if_pos hcp]
+        have hpl : plain (p.drop 1) = true := by
+          rw [Bool.and_eq_true] at hcp; exact hcp.2
+        have hdec : Fs.pctDecode (p.drop 1) = p.drop 1 := C07L.pctDecode_plain _ (plain_no_pct hpl)
+        cases hk : Fs.kindAt fe.tree (Fs.locOf fe.root ++ Fs.segs (p.drop 1)) with
+        | none => rfl
+        | some k =>
+          have hsv := reachable_exists fe.tree fe.root (p.drop 1) htree hroot hpl hk
+          rw [← hdec] at hsv
+          obtain ⟨hd, hf⟩ := plan_of_served (hs := rh.headers) hsv
+          rw [hdec] at hd hf hsv
+          cases k with
+          | dir =>
+            rw [hd hk] at hres
+            simp only [] at hres
+            simp only []
+            rw [hres.1, hres.2]
+            obtain ⟨e, he, h1, h2⟩ := Fs.kindAt_mem hk
+            have := List.all_eq_true.1 hlist e he
+            rw [h2, h1, hdec] at this
+            simp only [bne_self_eq_false, Bool.false_or] at this
+            unfold listsAll at this
+            simp only [beq_self_eq_true, Bool.true_and]
+            exact this
+          | file =>
+            obtain ⟨r, hr⟩ := hf hk
+            rw [hr] at hres
+            simp only [] at hres
+            simp only []
+            rw [hres.1, hres.2]
+            simp
+      · rw [if_neg hcp]
+
 /-- the class of roots is not empty and contains the spellings the property names -/
 example : Fs.CleanAbs (lit ['/','r','/','r','o','o','t']) = true := by decide
 example : Fs.StrictCleanAbs (lit ['/','r','/','r','o','o','t']) = true := by decide
@@ -293,5 +514,55 @@ example : Fs.cleanPath (lit ['a','/','.','.','/','.','.','/','x']) = lit ['.','.
 example : Fs.cleanPath (lit ['/','a','/','.','.','/','.','.']) = lit ['/','.','.'] := by decide
 example : Fs.relativeFilePath exRoot (lit ['/','r','/','r','o','o','t','x','/','s']) = lit ['.','.','/','r','o','o','t','x','/','s'] := by decide
 example : Fs.relativeFilePath exRoot (lit ['/','r','/','r','o','o','t']) = lit ['.'] := by decide
+
+/-! ### non-vacuity of `holds_run` -/
+
+def exEnv : Env := { url := fun raw => some (raw, []), errPage := fun _ _ => lit ['n','o'] }
+
+/-- canary contents: every file contains its own location; listings link the entries -/
+def exFe : FsEnv :=
+  { root := exRoot, tree := exTree,
+    content := fun loc => Fs.joinSegs loc,
+    mime := fun _ => lit ['t','e','x','t','/','p','l','a','i','n'],
+    listing := fun loc _ =>
+      (exTree.filter fun e => e.1.dropLast == loc).flatMap fun e =>
+        match e.1.getLast? with
+        | some n => HREF ++ htmlEscape n ++ (if e.2 == .dir then [47, 34] else [34])
+        | none => [] }
+
+def exHead1 : Bytes := lit ['G','E','T',' ','/','s','u','b','/','d','e','e','p','.','t','x','t',' ','H','T','T','P','/','1','.','1']
+def exSnap1 : Snap :=
+  { parsed := true, method := 2, rawPath := lit ['/','s','u','b','/','d','e','e','p','.','t','x','t'],
+    path := lit ['/','s','u','b','/','d','e','e','p','.','t','x','t'], query := [], headers := [], total := -1 }
+def exHead2 : Bytes := lit ['G','E','T',' ','/','.','.',' ','H','T','T','P','/','1','.','1']
+def exSnap2 : Snap :=
+  { parsed := true, method := 2, rawPath := lit ['/','.','.'], path := lit ['/','.','.'], query := [],
+    headers := [], total := -1 }
+def exTail : List Event := [.turn, .turn, .turn, .turn, .ackAll, .turn]
+
+theorem exPct1 : Fs.pctDecode (exSnap1.path.drop 1) = lit ['s','u','b','/','d','e','e','p','.','t','x','t'] :=
+  C07L.pctDecode_plain _ (by decide)
+theorem exPct2 : Fs.pctDecode (exSnap2.path.drop 1) = lit ['.','.'] :=
+  C07L.pctDecode_plain _ (by decide)
+
+/-- a plain path to an existing file: the theorem's hypotheses hold (all by `decide`) -/
+example : holds exFe (lit ['s','u','b','/','d','e','e','p','.','t','x','t']) true
+    (FsHandler.run exEnv exFe (.new :: .feed (exHead1 ++ CRLF2) :: .turn :: exTail)).sock.log = true :=
+  holds_run exEnv exFe (exHead1 ++ CRLF2) exHead1 exSnap1 exTail true (by decide) (by decide) (by decide)
+    (by decide) (by decide) (by decide) (by decide) (by rw [exPct1]; decide) (by rw [exPct1]; decide)
+    (by decide)
+
+/-- the parent directory `..`: answered 404, the predicate holds -/
+example : holds exFe (lit ['.','.']) true
+    (FsHandler.run exEnv exFe (.new :: .feed (exHead2 ++ CRLF2) :: .turn :: exTail)).sock.log = true :=
+  holds_run exEnv exFe (exHead2 ++ CRLF2) exHead2 exSnap2 exTail true (by decide) (by decide) (by decide)
+    (by decide) (by decide) (by decide) (by decide) (by rw [exPct2]; decide) (by rw [exPct2]; decide)
+    (by decide)
+
+-- the clause is not vacuous for this input: the path is plain and the file exists
+example : plain (lit ['s','u','b','/','d','e','e','p','.','t','x','t']) = true ∧
+    Fs.kindAt exFe.tree (Fs.locOf exFe.root ++ Fs.segs (lit ['s','u','b','/','d','e','e','p','.','t','x','t'])) =
+      some .file ∧ rootLoc exFe = some (Fs.locOf exFe.root) := by decide
+
 
 end Qhttp.C07
